@@ -276,6 +276,9 @@ func (w *world) afterRecv(c *xchain, in *intent, out *txOutcome) {
 		// completeness probe: an honest, first, fresh message that was rejected
 		if rm.corrupted == "" && derr == nil && w.m.received[c.idx][p.Triple()] == 0 {
 			w.rec.Probe("recv.valid_rejected")
+			if src := w.chainByName(p.SrcChain); src != nil && p.DstChain == c.Cfg.Name {
+				w.deliverable(c, src, "recv", msg.ProofHeight, fmt.Sprintf("commitments/%s/%s/sequences/%d", p.SrcChain, p.DstChain, p.Sequence), sha(p.Encode()), rm, in, out)
+			}
 		}
 		return
 	}
@@ -451,6 +454,53 @@ func (w *world) checkProofGround(c, src *xchain, kind string, ph clienttypes.Hei
 	}
 }
 
+// deliverable (C19, end-to-end deliverability): an uncorrupted message was refused with a proof-verification
+// error although everything a Tendermint-secured path needs is in place - the signer is registered for the
+// source chain, the client verified that height itself (and long enough ago), the source's committed store
+// holds the expected hash under the canonical key at that version, and an independent ICS-23 verifier accepts
+// the very proof bytes. Then the two chains disagree about the key or the value, and the packet can never be
+// delivered.
+func (w *world) deliverable(c, src *xchain, kind string, ph clienttypes.Height, key string, want []byte, rm *relayMsg, in *intent, out *txOutcome) {
+	if k := c.clientKind[src.idx]; k != "" && k != "tm" {
+		return
+	}
+	log := out.res.Log
+	if !strings.Contains(log, "proof") {
+		return
+	}
+	if strings.Contains(log, "already") || strings.Contains(log, "not active") || strings.Contains(log, "delay") || strings.Contains(log, "out of gas") {
+		return
+	}
+	if c.registry[in.signer.Acc.String()][src.Cfg.Name] == "" || ph.RevisionNumber != src.Revision() || !c.accepted[src.idx][ph.RevisionHeight] {
+		return
+	}
+	if _, ok := c.App.XIBCKeeper.ClientKeeper.GetClientConsensusState(c.ReadCtx(), src.Cfg.Name, ph); !ok {
+		return
+	}
+	if d := w.proofDelay(c, src); d > 0 {
+		if pt, ok := w.processedAt(c, src, ph.RevisionHeight); !ok || pt+d > uint64(c.CurHdr.Time.UnixNano()) {
+			return
+		}
+	}
+	if got := src.StoreGetAt("xibc", []byte(key), int64(ph.RevisionHeight)-1); !bytesEq(got, want) {
+		return
+	}
+	if err := w.verifyProofIndependently(src, ph, rm.proof, key, want); err != nil {
+		return
+	}
+	w.rec.Violate("C19", "deliverability", kind+"_valid_proof_rejected", "%s with a proof that an independent ICS-23 verifier accepts for the canonical key %s at a height the client verified itself was refused: %s", kind, key, firstLineOf(log))
+}
+
+func firstLineOf(s string) string {
+	if i := strings.Index(s, "\n"); i > 0 {
+		s = s[:i]
+	}
+	if len(s) > 300 {
+		s = s[:300]
+	}
+	return s
+}
+
 // ------------------------------------------------------------------------------------------------
 // acknowledgements (C05, C02, C03)
 
@@ -461,6 +511,9 @@ func (w *world) afterAck(c *xchain, in *intent, out *txOutcome) {
 	if !out.ok {
 		if rm.corrupted == "" && !rm.dup {
 			w.rec.Probe("ack.valid_rejected")
+			if dst := w.chainByName(p.DstChain); derr == nil && dst != nil && p.SrcChain == c.Cfg.Name && w.m.pkts[pktKey(c.idx, dst.idx, p.Sequence)] != nil && w.m.pkts[pktKey(c.idx, dst.idx, p.Sequence)].ackCount == 0 {
+				w.deliverable(c, dst, "ack", msg.ProofHeight, fmt.Sprintf("acks/%s/%s/sequences/%d", p.SrcChain, p.DstChain, p.Sequence), sha(msg.Acknowledgement), rm, in, out)
+			}
 		}
 		return
 	}
